@@ -4,6 +4,7 @@ package oracle
 
 import (
 	"fmt"
+	"strings"
 
 	"github.com/hattya/go.sh/ast"
 
@@ -140,9 +141,65 @@ func Redir(r *ast.Redir, m Mode) string {
 		hd = skel.Word(merged(r.Heredoc, m))
 	}
 	if r.Delim != nil {
-		dl = skel.Word(merged(r.Delim, m))
+		// the delimiter line is compared as text: whether "$x" in it is kept
+		// as scanned or as a literal is not the property's business
+		if t, ok := delimText(r.Delim); ok {
+			dl = skel.Word([]string{skel.Lit(t)})
+		} else {
+			dl = skel.Word(merged(r.Delim, m))
+		}
 	}
 	return skel.Redir(n, r.Op, Word(r.Word, m), hd, dl)
+}
+
+// delimText spells a delimiter line back as text; ok is false for shapes the
+// generator never puts into a delimiter.
+func delimText(w ast.Word) (string, bool) {
+	var b strings.Builder
+	for _, p := range w {
+		switch p := p.(type) {
+		case *ast.Lit:
+			b.WriteString(p.Value)
+		case *ast.Quote:
+			if p.Tok != `\\` {
+				return "", false
+			}
+			t, ok := delimText(p.Value)
+			if !ok {
+				return "", false
+			}
+			b.WriteString(`\\` + t)
+		case *ast.ParamExp:
+			if p.Name == nil || p.Op != "" || p.Word != nil {
+				return "", false
+			}
+			if p.Braces {
+				b.WriteString("${" + p.Name.Value + "}")
+			} else {
+				b.WriteString("$" + p.Name.Value)
+			}
+		case *ast.CmdSubst:
+			if p.Dollar || len(p.List) != 1 {
+				return "", false
+			}
+			c, ok := p.List[0].(*ast.Cmd)
+			if !ok || len(c.Redirs) != 0 {
+				return "", false
+			}
+			sc, ok := c.Expr.(*ast.SimpleCmd)
+			if !ok || len(sc.Assigns) != 0 || len(sc.Args) != 1 {
+				return "", false
+			}
+			t, ok := delimText(sc.Args[0])
+			if !ok {
+				return "", false
+			}
+			b.WriteString("`" + t + "`")
+		default:
+			return "", false
+		}
+	}
+	return b.String(), true
 }
 
 func expr(x ast.CmdExpr, m Mode) string {
